@@ -12,7 +12,7 @@ from ..run import hyp_search, mix
 
 RULE = ('words of each content model\'s language: ALL words of length <= L (quick L=4, thorough L=6 capped per type), '
         'the 2-switch cover of every DFA, and Hypothesis-drawn DFA walks up to length 40 (loops included), each fed '
-        'left to right with add_child on a fresh checked element (children are unchecked stubs) and, second path, '
+        'left to right with add_child on a fresh checked element (children are unchecked stubs; afterwards a child with a same-named later sibling is exchanged for an equal one by replace_child and must keep its place) and, second path, '
         'written as XML and read with parse_musicxml. Non-trivial = length>=2 and the DFA path takes a transition on a '
         'cycle or leaves a state with >1 continuation, or the empty word where the schema allows it; distinct by '
         '(type, element, word, path).')
